@@ -226,10 +226,10 @@ theorem run_sound (step : Bytes → Step) (decode : Bytes → PyM (Option μ)) (
       by_cases hv : validUnit units single uid0 = true
       · rw [if_pos hv]
         cases hdc : decode pdu with
-        | error e => exact ⟨⟨0, by simp⟩, by intro m uid tid pid h; simp at h⟩
+        | error e => exact ⟨⟨n, by simp⟩, by intro m uid tid pid h; simp at h⟩
         | ok o =>
           cases o with
-          | none => exact ⟨⟨0, by simp⟩, by intro m uid tid pid h; simp at h⟩
+          | none => exact ⟨⟨n, by simp⟩, by intro m uid tid pid h; simp at h⟩
           | some m0 =>
             obtain ⟨⟨j, hj⟩, hd⟩ := ih (buf.drop n)
             refine ⟨⟨n + j, by simp only []; rw [hj, List.drop_drop]⟩, ?_⟩
